@@ -362,7 +362,7 @@ def run(tier: str, opts: dict) -> int:
     t0 = time.time()
     T3, T2 = ("a", "b", "c"), ("a", "b")
     if tier == "quick":
-        budget = 75
+        budget = 300
         runs = [
             bfs(rep, T3, "star", 3, t0 + budget, "3 tables, depth 3, SELECT * templates"),
             bfs(rep, T2, "lit", 30, t0 + budget, "2 tables, to fixpoint, literal templates"),
